@@ -53,6 +53,18 @@ def _install():
 
     core.make_counterexample_message = make_counterexample_message
 
+    # No short-circuiting: CrossHair may skip a callee that carries a contract (its own `hash` patch has one) and
+    # continue with an unconstrained symbolic result.  A symbolic int returned from a Python-level __hash__ into a
+    # C-level set() raises TypeError, which harnesses that catch library exceptions would misread.  Always call in.
+    orig_consider = core.consider_shortcircuit
+
+    def consider_shortcircuit(fn, sig, bound, subconditions, allow_interpretation):
+        if allow_interpretation:
+            return None
+        return orig_consider(fn, sig, bound, subconditions, allow_interpretation)
+
+    core.consider_shortcircuit = consider_shortcircuit
+
     from engine import plugin
 
     plugin.install()
